@@ -42,7 +42,7 @@ RunsChain(m) == /\ Len(m.runs) >= 1
                 /\ \A r \in 1..Len(m.runs) : m.runs[r][1] <= m.runs[r][2]
                 /\ \A r \in 1..(Len(m.runs) - 1) : m.runs[r + 1][1] = m.runs[r][2] + 1
                 /\ m.nmin = m.runs[1][1] /\ m.nmax = m.runs[Len(m.runs)][2]
-                /\ m.n = m.nmax - m.nmin + 1
+                /\ m.n = m.nmax - m.nmin + 1 /\ m.naxis = m.n
 AxisContiguous(t) == \A k \in 1..Len(t.maps) : RunsChain(t.maps[k])
 SameExtent(t) == \A k \in 1..Len(t.maps) : t.maps[k].nmin = t.maps[1].nmin /\ t.maps[k].nmax = t.maps[1].nmax
 ExtentIsNetworkHull(t) == \A k \in 1..Len(t.maps) : t.maps[k].nmin = t.ext[1] /\ t.maps[k].nmax = t.ext[2]
